@@ -850,7 +850,12 @@ impl Session {
             "wall_s": (wall * 1000.0).round() / 1000.0,
             "violations": g.violations.len(),
         });
-        let dir = self.root.join("evidence");
+        // VERIF_EVIDENCE_DIR: a secondary engine (the process-level e2e tier) writes its evidence
+        // next to, not over, the property's own file; ./check merges it in.
+        let dir = match std::env::var_os("VERIF_EVIDENCE_DIR") {
+            Some(d) if !d.is_empty() => PathBuf::from(d),
+            _ => self.root.join("evidence"),
+        };
         let _ = std::fs::create_dir_all(&dir);
         let path = dir.join(format!("{}.json", self.property));
         if let Err(e) = std::fs::write(&path, serde_json::to_string_pretty(&evidence).unwrap()) {
